@@ -81,7 +81,7 @@ func vrt_ConnEOF(c *net.TCPConn) {
 func vrt_Yield() { time.Sleep(60 * time.Millisecond) }
 
 // vrt_Wake releases goroutines parked in time.Sleep (engine); natively time passes by itself.
-func vrt_Wake() { time.Sleep(1800 * time.Millisecond) }
+func vrt_Wake() { time.Sleep(3300 * time.Millisecond) }
 
 // vrt_ConnStart begins delivering the script (natively); the harness then runs the reader.
 func vrt_ConnStart(c *net.TCPConn) {
